@@ -18,21 +18,39 @@ import EdzedProofs.InitOrder
 
 namespace Edzed.Init
 
-/-- `wait_init()` returned normally ⇒ every block's output differs from UNDEF, the simulation is
-    running (`is_ready()`), and the first evaluation pass has been done -/
+/-- `wait_init()` returned normally ⇒ every block's output differs from UNDEF -- the sequential blocks AND
+    the combinational blocks (every one of them has been evaluated in the first pass) --, the simulation is
+    running (`is_ready()`), and the first evaluation pass has been done without a failure -/
 theorem wait_init_ok_implies_valid (c : Cfg) (v : View) (hv : v.of (run c))
     (h : waitInit v = .returned) :
-    (∀ b, b < c.n → (run c).out b ≠ .undef) ∧ (run c).running = true ∧
-    (run c).firstPassDone = true ∧ c.cblocks.any id = false := by
+    (∀ b, b < c.n → (run c).out b ≠ .undef) ∧
+    ((run c).cout.length = c.cblocks.length ∧ ∀ o ∈ (run c).cout, o ≠ .undef) ∧
+    (run c).running = true ∧ (run c).firstPassDone = true ∧ c.cblocks.any CScript.fails = false := by
   obtain ⟨_, he, _⟩ := hv
   have hnf : (run c).failed = false := by
     unfold waitInit at h
     cases hd : v.simtaskDone <;> cases hi : v.initDone <;> cases hx : v.error <;> simp_all
   have hok : (run c).ok = true := by
     have := failed_iff_not_ok (run c); rw [hnf] at this; simpa using this.symm
-  obtain ⟨hok1, hfp, _, hout, hcb⟩ := firstPass_ok c (afterCheck c) hok
+  obtain ⟨hok1, hfp, _, hout, hcb, hco⟩ := firstPass_ok c (afterCheck c) hok
   obtain ⟨_, hall, hchk⟩ := check_ok c (syncPhase c (afterAsync c)) hok1
-  refine ⟨?_, by simp [St.running, hnf], hfp, hcb⟩
+  have hcout : (run c).cout.length = c.cblocks.length ∧ ∀ o ∈ (run c).cout, o ≠ .undef := by
+    have e : (run c).cout = c.cblocks.map CScript.value := hco
+    rw [e]
+    refine ⟨by simp, ?_⟩
+    intro o ho
+    simp only [List.mem_map] at ho
+    obtain ⟨x, hx, rfl⟩ := ho
+    have hf : x.fails = false := by
+      have := List.any_eq_false.mp hcb x hx
+      simpa using this
+    cases x with
+    | raises => simp [CScript.fails] at hf
+    | returns w =>
+      intro hu
+      simp only [CScript.value] at hu
+      simp [CScript.fails, hu, Val.isUndef] at hf
+  refine ⟨?_, hcout, by simp [St.running, hnf], hfp, hcb⟩
   intro b hb
   have hrun : (run c).out = (syncPhase c (afterAsync c)).out := by
     show (firstPass c (afterCheck c)).out = _
@@ -53,7 +71,7 @@ example : ∃ c v, View.of (run c) v ∧ waitInit v = .returned :=
     (even if the exception was swallowed, e.g. by `init_from_persistent_data`), then the simulation is not
     running and a released `wait_init()` raises -/
 theorem failed_init_raises (c : Cfg) (v : View) (hv : v.of (run c)) (hw : waitInit v ≠ .waiting)
-    (h : allInitialised c (syncPhase c (afterAsync c)) = false ∨ c.cblocks.any id = true ∨
+    (h : allInitialised c (syncPhase c (afterAsync c)) = false ∨ c.cblocks.any CScript.fails = true ∨
          (afterCheck c).failed = true ∨ (∃ d, Entry.refused d ∈ (run c).log)) :
     waitInit v = .raised ∧ (run c).running = false := by
   have hf : (run c).failed = true := by
@@ -90,9 +108,21 @@ example : ∃ c, Entry.refused 1 ∈ (run c).log ∧ (run c).failed = true ∧ (
       else { persist := .restores (Val.int 12) .direct, dests := [1] },
      fuel := 64 }, by decide, by decide, by decide⟩
 
-example : ∃ c, c.cblocks.any id = true ∧ (run c).initDone = true ∧ (run c).failed = true :=
-  ⟨{ n := 1, blk := fun _ => { initdef := some (Val.int 1, .direct) }, cblocks := [true], fuel := 8 },
+example : ∃ c, c.cblocks.any CScript.fails = true ∧ (run c).initDone = true ∧ (run c).failed = true :=
+  ⟨{ n := 1, blk := fun _ => { initdef := some (Val.int 1, .direct) }, cblocks := [.raises], fuel := 8 },
    by decide, by decide, by decide⟩
+
+/-- a combinational block whose function returns UNDEF in the first pass makes the start-up fail
+    (`eval_block` tests for UNDEF before its `previous == value` fast path) -/
+theorem undef_in_first_pass_fails (c : Cfg) (h : CScript.returns .undef ∈ c.cblocks) :
+    (run c).running = false := by
+  have hany : c.cblocks.any CScript.fails = true := List.any_eq_true.mpr ⟨_, h, rfl⟩
+  have : (run c).ok = false := firstPass_raises c _ hany
+  simp [St.running, failed_iff_not_ok, this]
+
+example : ∃ c, CScript.returns .undef ∈ c.cblocks ∧ (run c).initDone = true ∧ (run c).failed = true :=
+  ⟨{ n := 1, blk := fun _ => { initdef := some (Val.int 1, .direct) },
+     cblocks := [.returns (Val.int 3), .returns .undef], fuel := 8 }, by decide, by decide, by decide⟩
 
 /-- defect #2 of DESIGN.md section 5, as a fact about the code BEFORE the repair: there is a start-up whose
     first evaluation pass fails and a moment (the clean-up is still running) at which the unrepaired
@@ -100,7 +130,7 @@ example : ∃ c, c.cblocks.any id = true ∧ (run c).initDone = true ∧ (run c)
 theorem legacy_wait_init_returns_after_failed_first_pass :
     ∃ c v, View.of (run c) v ∧ (run c).failed = true ∧ waitInitLegacy v = .returned ∧
       waitInit v = .raised :=
-  ⟨{ n := 1, blk := fun _ => { initdef := some (Val.int 1, .direct) }, cblocks := [true], fuel := 8 },
+  ⟨{ n := 1, blk := fun _ => { initdef := some (Val.int 1, .direct) }, cblocks := [.raises], fuel := 8 },
    ⟨true, false, true⟩, by unfold View.of; decide, by decide, by decide, by decide⟩
 
 /-- Full statement: per block the calls are a subsequence of restore, init_async, init_regular, initdef
